@@ -63,7 +63,9 @@ def checkPhase (cfg : Cfg) (real : Toks) (p : Phase) : List String :=
    | none => if evals == 0 then [] else ["run-if-evaluated-without-run-if"]
    | some f =>
      let trues := ((List.range evals).filter (fun i => f i == some true)).length
-     if bodies == trues then [] else ["body-vs-run-if"])
+     (if bodies == trues then [] else ["body-vs-run-if"]) ++
+     -- a false run_if excludes the phase: it is the last evaluation (nothing is re-evaluated, nothing runs afterwards)
+     (if (List.range (evals - 1)).all (fun i => f i != some false) then [] else ["run-if-false-yet-evaluated-again"]))
 
 def handle (ts : Toks) : String :=
   let (inp, real) := splitAt "#" ts
